@@ -50,7 +50,8 @@ fn reader_auth_tbs(transcript: &Value, items_bytes: &[u8], prot: &[u8]) -> Vec<u
     to_bytes(&Value::Array(vec![Value::Text("Signature1".into()), Value::Bytes(prot.to_vec()), Value::Bytes(vec![]), Value::Bytes(ra_bytes)]))
 }
 
-struct Built { doc_request: Value, facts: String }
+struct Built { doc_request: Value, facts: String, /// (transcript-independent part of) the model's own signature check: (first certificate key x||y or "-", harness verdict)
+    sig_check: Option<(String, bool)> }
 
 #[allow(clippy::too_many_arguments)]
 fn build(kind: Kind, idx: usize, pki: &Pki, transcript: &Value, other_transcript: &Value, registry: &TrustAnchorRegistry, rng: &mut rand_chacha::ChaCha8Rng) -> Built {
@@ -59,7 +60,7 @@ fn build(kind: Kind, idx: usize, pki: &Pki, transcript: &Value, other_transcript
     let t = |b: bool| if b { "t" } else { "f" };
     if kind == Kind::Absent {
         let dr = Value::Map(vec![(Value::Text("itemsRequest".into()), Value::Tag(24, Box::new(Value::Bytes(items))))]);
-        return Built { doc_request: dr, facts: "p=f;x5p=f;x5ok=f;chain=0;key=f;alg=absent;att=f;sp=f;sa=f".into() };
+        return Built { doc_request: dr, facts: "p=f;x5p=f;x5ok=f;chain=0;key=f;alg=absent;att=f;sp=f;sa=f".into(), sig_check: None };
     }
     let mut prot: Vec<u8> = vec![0xa1, 0x01, 0x26];
     if kind == Kind::AlgEs384 { prot = vec![0xa1, 0x01, 0x38, 0x22]; }
@@ -114,7 +115,8 @@ fn build(kind: Kind, idx: usize, pki: &Pki, transcript: &Value, other_transcript
     let sp = Signature::from_slice(&sig_bytes);
     let sa = match (&sp, &vk) { (Ok(s), Some(k)) => k.verify(&tbs_device, s).is_ok(), _ => false };
     let alg = if prot == vec![0xa1, 0x01, 0x38, 0x22] { "a:-35" } else { "a:-7" };
-    Built { doc_request: dr, facts: format!("p=t;x5p={};x5ok={};chain={};key={};alg={};att={};sp={};sa={}", t(x5p), t(chain.is_some()), chain_errs, t(vk.is_some()), alg, t(kind == Kind::PayloadAttached || attached_original), t(sp.is_ok()), t(sa)) }
+    let key_hex = vk.as_ref().map(|k| { use p256::elliptic_curve::sec1::ToEncodedPoint; let p = k.to_encoded_point(false); let mut v = p.x().unwrap().to_vec(); v.extend_from_slice(p.y().unwrap()); hex::encode(v) }).unwrap_or("-".into());
+    Built { doc_request: dr, sig_check: Some((key_hex, sa)), facts: format!("p=t;x5p={};x5ok={};chain={};key={};alg={};att={};sp={};sa={}", t(x5p), t(chain.is_some()), chain_errs, t(vk.is_some()), alg, t(kind == Kind::PayloadAttached || attached_original), t(sp.is_ok()), t(sa)) }
 }
 
 pub fn run(ctx: &mut Ctx) {
@@ -148,6 +150,9 @@ pub fn run(ctx: &mut Ctx) {
             let facts: Vec<String> = built.iter().map(|b| b.facts.clone()).collect();
             let case = serde_json::json!({"registry": rname, "pattern": format!("{:?}", pat), "real": real, "msg_hex": hex::encode(&pt)});
             if !decodes { continue; }
+            // the model's own ECDSA over its own Sig_structure(ReaderAuthenticationBytes) against the harness's verdict, per document request
+            if pat.len() == 1 || ctx.thorough { for b in &built { if let Some((key, sa)) = &b.sig_check {
+                ctx.emit.line("corr", &format!("{rname}:readersig"), format!("facts.readersig {} {} {key}", hex::encode(to_bytes(&b.doc_request)), hex::encode(to_bytes(&tr))), (if *sa { "t" } else { "f" }).to_string(), case.clone()); } } }
             ctx.emit.line("corr", &format!("{rname}:n{}", pat.len()), format!("req.status t {}", facts.join(" ")), real.clone(), case.clone());
             if real != "panic" { ctx.emit.line("spec", &format!("spec:{rname}:n{}", pat.len()), format!("spec.c11 {real} {}", facts.join(" ")), "true".into(), case); }
         }
